@@ -493,6 +493,8 @@ def canon(fn, i, pmap=None):
     i = fn.strip(i)
     n = fn.nodes[i]
     k = n["k"]
+    if "cv" in n and k != "DeclRefExpr":
+        return str(n["cv"])
     if k == "DeclRefExpr":
         return pmap.get(n["d"], n["n"])
     if k == "MemberExpr":
